@@ -1453,6 +1453,10 @@ def __analyse_function(
         if lambda_assigned_name := _get_lambda_assigned_name(
             module_tree, func.__code__.co_firstlineno
         ):
+            if __should_skip_by_visibility(lambda_assigned_name, add_to_test=add_to_test):
+                # The name the lambda is bound to decides on its visibility.
+                LOGGER.debug("Skipping lambda %s from analysis", lambda_assigned_name)
+                return
             func_name = lambda_assigned_name
             func.__name__ = lambda_assigned_name
         else:
